@@ -609,9 +609,10 @@ RAW_BODY = "\n r \n "
 DEFAULT_DELIMS = ("{%", "%}", "{{", "}}", "{#", "#}")
 
 
-def tag_variants(delims=DEFAULT_DELIMS):
+def tag_variants(delims=DEFAULT_DELIMS, extended=False):
     """[(label, [Tag, (text, Tag)...])]: block/comment/raw x left x right modifier, variable x left x {'', '-'}
-    (`+}}` is not a delimiter: it lexes as an operator)."""
+    (`+}}` is not a delimiter: it lexes as an operator).  extended: additionally the same tags spanning two lines
+    (multi-line expression / comment) and raw blocks whose INNER sides carry '-' (33 more variants)."""
     bs, be, vs, ve, cs, ce = delims
     out = []
     for l, r in itertools.product(MODS, MODS):
@@ -620,6 +621,13 @@ def tag_variants(delims=DEFAULT_DELIMS):
         out.append((f"raw[{l}|{r}]", [Tag("rawbegin", l, "", bs + l + " raw " + be), RAW_BODY, Tag("rawend", "", r, bs + " endraw " + r + be)]))
         if r != "+":
             out.append((f"variable[{l}|{r}]", [Tag("variable", l, r, vs + l + " v " + r + ve, "V")]))
+    if extended:
+        for l, r in itertools.product(MODS, MODS):
+            out.append((f"block2[{l}|{r}]", [Tag("block", l, r, bs + l + " set q =\n 1 " + r + be)]))
+            out.append((f"comment2[{l}|{r}]", [Tag("comment", l, r, cs + l + " c\n d " + r + ce)]))
+            out.append((f"raw-[{l}|{r}]", [Tag("rawbegin", l, "-", bs + l + " raw -" + be), RAW_BODY, Tag("rawend", "-", r, bs + "- endraw\n" + r + be)]))
+            if r != "+":
+                out.append((f"variable2[{l}|{r}]", [Tag("variable", l, r, vs + l + " [v,\n v]|join " + r + ve, "VV")]))
     return out
 
 
@@ -629,6 +637,7 @@ def delims_of(kwargs):
 
 
 TAGS = tag_variants()
+TAGS_EXT = tag_variants(extended=True)
 SETTINGS = [(t, l) for t in (False, True) for l in (False, True)]
 
 
@@ -780,17 +789,21 @@ def left_spec(text, sign, lstrip, is_var, line_starting, K, o):
                        z3.If(automatic_applies, auto, o == t)))  # variable tags / option off: unchanged
 
 
-def family_sample(seed, n2=1500):
-    """skeleton ids used for the non-default delimiter families: all with <= 1 tag plus n2 seeded two-tag skeletons"""
+def family_sample(seed, n2=1500, ntags=None):
+    """skeleton ids used for the non-default delimiter families / the extended tag set: all with <= 1 tag plus n2 seeded
+    two-tag skeletons, over `ntags` tag variants"""
+    ntags = len(TAGS_EXT) if ntags is None else ntags
     rnd = random.Random(f"lex-families-{seed}")
-    ids = list(corpus_ids(0)) + list(corpus_ids(1))
+    ids = [((), (s,)) for s in range(len(SEPS))]
+    ids += [((t,), (a, b)) for t in range(ntags) for a in range(len(SEPS)) for b in range(len(SEPS))]
     for _ in range(n2):
-        ids.append((tuple(rnd.randrange(len(TAGS)) for _ in range(2)), tuple(rnd.randrange(len(SEPS)) for _ in range(3))))
+        ids.append((tuple(rnd.randrange(ntags) for _ in range(2)), tuple(rnd.randrange(len(SEPS)) for _ in range(3))))
     return ids
 
 
-FAMILY_BOUND = ("the same skeletons written with the delimiter sets asp (<% %> <%= %> <!-- -->), dollar (<? ?> ${ } <!-- -->) and shared "
-                "({%% %%} {%%= =%%} {%%# #%%}): all with N <= 1 plus 1500 seeded skeletons with N = 2, under the four trim/lstrip settings")
+FAMILY_BOUND = ("the EXTENDED tag set (the 33 variants plus 33 more: the same tags spanning two lines, raw blocks with '-' on their inner sides) "
+                "written with the delimiter sets default, asp (<% %> <%= %> <!-- -->), dollar (<? ?> ${ } <!-- -->) and shared ({%% %%} {%%= =%%} "
+                "{%%# #%%}): all skeletons with N <= 1 plus 1500 seeded skeletons with N = 2, under the four trim/lstrip settings")
 
 
 def expected_stream(parts, trim_blocks, lstrip_blocks):
